@@ -98,6 +98,11 @@ add("C05", MC,
     "Trusted: OnceLock and AtomicWaker are atomic (documented contracts); sequentially consistent interleavings only (Relaxed on the closing flag not modelled); the driver keeps one waker for its lifetime. Bounds: quick pre-emption 5 (3 threads) / 3 (4 threads); thorough unbounded / 5.",
     "stateless exploration of thread interleavings of the implementation under a controlled (baton) scheduler with pre-emption bounding", "threads", "DESIGN.md 5/C05")
 
+add("C20", MC,
+    "Explicit-state breadth-first search over the REAL Encoder/Decoder/DynamicTable (verif-hooks re-exports) in the history-is-the-state style: each state is rebuilt from fresh objects by replaying its event history; states are deduplicated by the complete canonical digest of both tables plus everything in flight; every configuration (capacity x blocked-streams limit) x three start states to a depth bound; every state is built twice (different hash-map seeds) and must agree; invariants are evaluated in every state against an independent RFC 9204 dynamic-table decoder that receives exactly the bytes the real decoder was given. Plus a 40-section workload per configuration explored by DFS with at most 2 delivery deviations.",
+    "Trusted: refimpl::qpack (self-tested on RFC 9204 App. B). Bounds: BFS depth 5 (quick) / 7 (thorough); 6 sections over 3 names x 2 values. Both tables start at the configured capacity.",
+    "explicit-state BFS with canonical-state deduplication over the implementation's own transition functions (history replay), reference-model oracle per state; deviation-bounded DFS for the long workload", "bfs", "DESIGN.md 5/C20")
+
 ALL = [f"C{i:02d}" for i in range(1, 21)]
 pending_reason = "check not built yet in this revision of /verif (planned, see DESIGN.md section 5)"
 manifest = dict(
@@ -107,11 +112,12 @@ manifest = dict(
         guard="cargo feature `verif-hooks` of the h3 crate",
         enable="the harness workspace depends on /repo/h3 by path with features=[\"verif-hooks\", ...]; ./check rebuilds it from the working tree on every run",
         baseline_off_cmd=BASELINE_CMD,
-        source_commits=["273b61f"],
+        source_commits=["273b61f", "6d237f0"],
         add_only=True,
     ),
     engines=[
         dict(name="enumeration", path="harness/crates/checks", serves_properties=["C11","C12","C15","C16","C18"], kind_free_text="complete enumeration of bounded input spaces of the real codecs against refimpl"),
+        dict(name="bfs", path="harness/crates/checks/src/c20.rs (history-replay BFS), harness/crates/checks/src/c08.rs (history enumeration)", serves_properties=["C08","C20"], kind_free_text="explicit-state search where a state is the event history reaching it; real objects are rebuilt and replayed per state; canonical digest for deduplication"),
         dict(name="threads", path="harness/crates/explore/src/threads.rs", serves_properties=["C05"], kind_free_text="baton scheduler over real OS threads: all sequentially consistent interleavings of hooked operations, pre-emption bounded, deadlock = lost wake-up"),
         dict(name="dfs", path="harness/crates/explore/src/dfs.rs", serves_properties=["C01","C02","C03","C04","C06","C07","C08","C09","C10","C13","C14","C19"], kind_free_text="stateless DFS over choice vectors (deviation-bounded) of real h3 over the simnet in-memory transport"),
     ],
